@@ -10,6 +10,8 @@ pub enum Case {
     Whist { shx: bool, ending: String, ops: Vec<WOp> },
     Wfault { shx: bool, dest: String, fault: Fault, persistent: bool, ops: Vec<WOp> },
     Read { target: String, shp: Vec<u8>, shx: Option<Vec<u8>> },
+    /// like Read, printed role-free (the form the specification-side expectation uses)
+    ReadFlat { target: String, shp: Vec<u8>, shx: Option<Vec<u8>> },
     Rhist { target: String, shp: Vec<u8>, shx: Option<Vec<u8>>, ops: Vec<ROp> },
     Code(i32),
     Ring(Dim, Role, Vec<P>),
@@ -43,6 +45,9 @@ pub fn show_case(c: &Case) -> String {
         }
         Case::Read { target, shp, shx } => {
             format!("read {} {} {}", target, hex(shp), shx.as_ref().map(|x| hex(x)).unwrap_or("none".into()))
+        }
+        Case::ReadFlat { target, shp, shx } => {
+            format!("readflat {} {} {}", target, hex(shp), shx.as_ref().map(|x| hex(x)).unwrap_or("none".into()))
         }
         Case::Rhist { target, shp, shx, ops } => {
             format!("rhist {} {} {} {}", target, hex(shp), shx.as_ref().map(|x| hex(x)).unwrap_or("none".into()), show_rops(ops))
@@ -113,6 +118,11 @@ pub fn parse_case(line: &str) -> Option<Case> {
             let (shp, shx) = parse_src(&mut t)?;
             Case::Read { target, shp, shx }
         }
+        "readflat" => {
+            let target = t.next()?.to_string();
+            let (shp, shx) = parse_src(&mut t)?;
+            Case::ReadFlat { target, shp, shx }
+        }
         "rhist" => {
             let target = t.next()?.to_string();
             let (shp, shx) = parse_src(&mut t)?;
@@ -155,6 +165,7 @@ pub fn run_case(c: &Case) -> String {
         Case::Whist { shx, ending, ops } => v_whist(*shx, ending, ops),
         Case::Wfault { shx, dest, fault, persistent, ops } => v_wfault(*shx, dest, *fault, *persistent, ops),
         Case::Read { target, shp, shx } => v_read(target, shp, shx.as_deref()),
+        Case::ReadFlat { target, shp, shx } => v_readflat(target, shp, shx.as_deref()),
         Case::Rhist { target, shp, shx, ops } => v_rhist(target, shp, shx.as_deref(), ops),
         Case::Code(c) => v_code(*c),
         Case::Ring(d, r, ps) => v_ring(*d, *r, ps),
